@@ -402,4 +402,5 @@ def run(ctx: Ctx, tier: str) -> Result:
                          "thrown away with it (actions merged into a trigger of the same location are lost)" % (norm(c_)[:60], g_.qname.rsplit(".", 2)[-2] + "." + g_.name)))
     if not lu_:
         res.ok("C11.KEEP", {"no in-place change is made to a copy handed out by a property": len(scope_)})
+    borrow(ctx, res, tier, "c03", ("C03.ACT",), "C11.EACHACT", "a tracepoint whose action fails at a hit affects only itself: the other actions of the event still run")
     return res
